@@ -43,6 +43,23 @@ CHECKS = {
         note="protobuf wire encoding of the AuxData message is the runtime's."),
 }
 
+
+WORLD_NOTE = ("The World model (coq/Model/World.v) is a hand transcription of the ownership code; its invariants are stated in coq/Proofs/InvDefs.v. ")
+_INTERIM = "INTERIM LEVEL: the invariant proofs for the World model are being written; until Props/%s.v holds the full theorems this check decides the property by differential execution of the extracted Coq model against the working tree plus a direct fresh-scan oracle, which is exploration, not proof."
+for _pid, _what, _sec in [
+    ("C03", "get_by_uuid versus reachability through the public containment attributes after every operation of random attach/detach/move histories over two IRs, and on IRs loaded twice from saved files", "5 C03"),
+    ("C04", "two-ended consistency, single parent, no duplicates, derived accessors and aggregate iterators after every operation of random histories over all entry points; default-argument sharing probes", "5 C03/C04"),
+    ("C05", "all block lookups at all four scopes against a fresh scan (exact at interval scope, envelope above) after random edit histories, boundary queries +-1", "5 C05"),
+    ("C06", "byte_intervals_on/at, sections_on/at and Section.address/size against a fresh scan after random edit histories", "5 C06"),
+    ("C10", "symbols_named and references against a comprehension over module.symbols after renames, payload switches and moves", "5 C10"),
+    ("C12", "one edit history replayed under different lookup schedules (none, every step, random, bursts around the rebuild threshold): final answers identical and equal to the model's", "5 C12"),
+    ("C13", "symbolic_expressions_at(_offset) at all scopes against a fresh scan, yielded order checked, after mapping-op histories", "5 C13"),
+    ("C16", "every method of the MutableSequence/MutableSet/MutableMapping interfaces in lock-step with built-in list/set/dict shadows, arguments from members, non-members and nodes owned elsewhere", "5 C16"),
+]:
+    CHECKS[_pid] = dict(category="exploration", text="Correspondence of the extracted Coq World model with the working tree and direct oracle: " + _what + ".",
+                        design=_sec, technique="differential execution of extracted Coq model + direct oracle (Coq invariant proofs in progress)",
+                        note=WORLD_NOTE + _INTERIM % _pid)
+
 NOT_YET = {}
 
 
